@@ -775,6 +775,7 @@ def correspondence(ctx):
             if ndis >= 3:
                 break
     redefinition_stream(ctx, rng)
+    cone_stream(ctx, rng)
     cov = {}
     for f in (L.lb, S.remove_null_cols):
         al = tracer.all_lines(f)
@@ -836,17 +837,156 @@ def redefinition_bad(p, edit, sparse, num):
 def redefinition_stream(ctx, rng):
     """a Panel whose definition (loads, laminate, geometry) is edited between two buckling analyses gives the multipliers of a
     freshly defined panel with the edited data"""
-    for _ in range(ctx.scale(4, 30)):
+    EDITS = ['load', 'plyt', 'a', 'stack']
+    for t_ in range(ctx.scale(4, 32)):
         p = gen_panel_params(rng)
         p['m'], p['nn'] = rng.randint(3, 4), rng.randint(3, 4)
-        sparse = rng.random() < 0.5
+        sparse = (t_ // len(EDITS)) % 2 == 0 if t_ < 2 * len(EDITS) else rng.random() < 0.5
         num = rng.choice([2, 3, 5])
-        edit = rng.choice(['load', 'load', 'plyt', 'a', 'stack'])
+        edit = EDITS[t_ % len(EDITS)]              # every kind of edit on every run
         bad = redefinition_bad(p, edit, sparse, num)
         ctx.evaluations += 1
         if bad and ctx.violation('C05 fails on the implementation: ' + bad,
                                  dict(problem=describe_clean(p), edit=edit, sparse=sparse, num=num, kind='redefinition')):
             return True
+    return False
+
+
+# ----------------------------------------------------------------------------- ConeCyl.lb (third copy of the glue)
+CONE_MODELS = ['clpt_donnell_bc1', 'clpt_donnell_bc2', 'clpt_donnell_bc3', 'clpt_donnell_bc4', 'clpt_sanders_bc1',
+               'clpt_sanders_bc4', 'fsdt_donnell_bc1', 'fsdt_donnell_bc4', 'fsdt_sanders_bcn']
+
+
+def gen_cone(rng):
+    clc = rng.choice([0, 0, 1, 2, 3])
+    return dict(kind='cone', model=rng.choice(CONE_MODELS), alphadeg=rng.choice([0., 0., rng.uniform(3., 30.)]),
+                Fc=rng.choice([1., 1000., rng.uniform(100., 5000.)]), P=rng.choice([0., 0.02]) if clc in (0, 2) else 0.,
+                T=(1e5 if clc == 3 else rng.choice([0., 1e5])) if clc in (0, 1, 3) else 0., clc=clc, num=rng.choice([2, 3, 4, 6]),
+                scale=rng.choice([0.5, 2.0, 4.0]))
+
+
+def run_cone(p, fc_scale=1.):
+    """ConeCyl.lb with the eigsh calls recorded -> (outcome, calls, M, A, pos)"""
+    import io
+    import contextlib
+    import warnings
+    import compmech.conecyl.conecyl as CM
+    from tools.props import C16
+    cc = C16.mk(p['model'], None, p['alphadeg'], Fc=p['Fc'] * fc_scale, P=p['P'] * fc_scale, T=p['T'] * fc_scale)
+    cc.num_eigvalues = p['num']
+    with Recorder([(CM, 'eigsh', 'eigsh')]) as rec:
+        try:
+            with np.errstate(all='ignore'), warnings.catch_warnings(), contextlib.redirect_stdout(io.StringIO()):
+                warnings.simplefilter('ignore')
+                cc.lb(combined_load_case=(p['clc'] or None))
+            outcome = ('ok', np.asarray(cc.eigvals), np.asarray(cc.eigvecs))
+        except Exception as ex:
+            outcome = ('exc', ex)
+    pos = CM.get_model(p['model'])['num0']
+    k0 = csr_matrix(cc.k0)
+    if p['clc'] == 0:
+        M, A = k0, csr_matrix(cc.kG0)
+    elif p['clc'] == 1:
+        M, A = k0 + csr_matrix(cc.kG0_T), csr_matrix(cc.kG0_Fc)
+    elif p['clc'] == 2:
+        M, A = k0 + csr_matrix(cc.kG0_P), csr_matrix(cc.kG0_Fc)
+    else:
+        M, A = k0 + csr_matrix(cc.kG0_Fc), csr_matrix(cc.kG0_T)
+    return outcome, rec.calls, csr_matrix(M[pos:, pos:]), csr_matrix(A[pos:, pos:]), pos
+
+
+def cone_line(p, M, calls, pos):
+    outs = [c.get('out') for c in calls] + [None, None, None]
+    return 'C05 conelb %d %d %d | %s | %s | %s | %s' % (M.shape[0], pos, p['num'], coo_text(M), res_text(outs[0]),
+                                                        res_text(outs[1]), res_text(outs[2]))
+
+
+def cone_predicates(p, outcome, calls, M, A, pos):
+    """C05 on the shell analysis: pairs solve the sliced pencil, zeros on prescribed / stiffness-less amplitudes, smallest positive
+    multipliers first"""
+    bad = []
+    if outcome[0] == 'exc':
+        from scipy.sparse.linalg import ArpackNoConvergence, ArpackError
+        if isinstance(outcome[1], (ArpackNoConvergence, ArpackError)):
+            return bad
+        bad.append((None, 'ConeCyl.lb raised %s: %s' % (type(outcome[1]).__name__, str(outcome[1])[:160])))
+        return bad
+    ev, evec = outcome[1], outcome[2]
+    nred = M.shape[0]
+    if evec.shape != (nred + pos, p['num']) or ev.shape != (p['num'],):
+        bad.append((None, 'ConeCyl.lb stored arrays of shapes %s, %s for size %d, num_eigvalues %d' % (ev.shape, evec.shape, nred + pos, p['num'])))
+        return bad
+    if np.any(evec[:pos, :] != 0):
+        bad.append((None, 'ConeCyl.lb: mode non-zero on a prescribed amplitude'))
+    act = np.unique(M.nonzero()[1])
+    null = np.setdiff1d(np.arange(nred), act)
+    if np.any(evec[pos:, :][null, :] != 0):
+        bad.append((None, 'ConeCyl.lb: mode non-zero on an amplitude without stiffness'))
+    nM, nA = fro(M), fro(A)
+    if np.abs(ev).min() > 1e10:
+        # the load-side matrix is numerically null in this discretisation (mu ~ 1e-16): there is no buckling problem to judge
+        p['_degenerate'] = True
+        return bad
+    for i in range(p['num']):
+        y, lam = evec[pos:, i], float(ev[i])
+        if not np.isfinite(lam) or np.linalg.norm(y) == 0:
+            bad.append((None, 'ConeCyl.lb pair %d: zero mode or non-finite multiplier %r' % (i, lam)))
+            break
+        if abs(lam) > 1e8:
+            continue        # |mu| < 1e-8: beyond what the shifted (sigma = 1) transform resolves; not judged
+        r = np.linalg.norm(M @ y + lam * (A @ y))
+        den = (nM + abs(lam) * nA) * np.linalg.norm(y)
+        if not r <= TOL_RES * den:
+            bad.append((None, 'ConeCyl.lb pair %d: (M + lam*A) v != 0 on the free amplitudes, lam = %r, backward error %.2e'
+                        % (i, lam, r / max(den, 1e-300))))
+            break
+    mu, posl = exact_spectrum(M, A, act)
+    if len(posl) >= p['num'] and posl[0] > 1 + 1e-6 and not bad:
+        kk = p['num']
+        while kk and posl[kk - 1] > 1e8:       # multipliers beyond what the shifted transform resolves are not compared
+            kk -= 1
+        if kk and (not np.all(np.abs(np.sort(ev)[:kk] - posl[:kk]) <= TOL_VAL * posl[:kk])
+                   or np.any(np.diff(ev[:kk]) < -TOL_VAL * np.abs(ev[1:kk]))):
+            bad.append((None, 'ConeCyl.lb (sub-critical, destabilising load): returned %r, the smallest positive multipliers are %r'
+                        % (ev.tolist(), posl[:p['num']].tolist())))
+    return bad
+
+
+def cone_stream(ctx, rng):
+    """model/implementation correspondence + predicates for ConeCyl.lb"""
+    probs = [gen_cone(rng) for _ in range(ctx.scale(8, 60))]
+    pend = []
+    for p in probs:
+        outcome, calls, M, A, pos = run_cone(p)
+        ctx.evaluations += 1
+        bad = cone_predicates(p, outcome, calls, M, A, pos)
+        if not bad and outcome[0] == 'ok' and p['clc'] == 0 and not p.get('_degenerate'):
+            o2 = run_cone(p, p['scale'])[0]
+            if o2[0] == 'ok' and np.all(np.isfinite(o2[1])):
+                a, b = np.sort(outcome[1]) / p['scale'], np.sort(o2[1])
+                keep_ = (a < 1e8) & (b < 1e8)
+                a, b = a[keep_], b[keep_]
+                if len(b) and b[0] > 1 + 1e-6 and outcome[1].min() > 1 + 1e-6 and np.abs(a - b).max() > TOL_VAL * np.abs(b).max():
+                    bad.append((None, 'ConeCyl.lb: scaling the loads by %g does not divide the multipliers by it: %r vs %r'
+                                % (p['scale'], a.tolist(), b.tolist())))
+        for ident, text in bad:
+            if ctx.violation('C05 fails on the implementation: ' + text, dict(problem={k: v for k, v in p.items() if not k.startswith('_')}), identity=ident):
+                return True
+        outs = [c.get('out') for c in calls]
+        if all(o is None or finite_out(o) for o in outs):
+            pend.append((p, outcome, calls, M, A, pos, cone_line(p, M, calls, pos)))
+    reps = driver([x[-1] for x in pend]) if pend else []
+    for (p, outcome, calls, M, A, pos, line), rep in zip(pend, reps):
+        d = compare_lb(rep, outcome, calls, M, A, M.shape[0])
+        if d:
+            ctx.violation('model/implementation disagreement (%s) [ConeCyl.lb, %s, combined_load_case %r]; the property predicates '
+                          'hold on this case' % (d, p['model'], p['clc'] or None),
+                          dict(problem={k: v for k, v in p.items() if not k.startswith('_')}, correspondence='Model/ConeLb.lean coneLb vs ConeCyl.lb'), found_input=False)
+            return True
+    ctx.cov['cone_lb'] = dict(cases=len(probs), compared_with_model=len(pend),
+                              fallback_paths=sum(1 for x in pend if len(x[2]) > 1),
+                              combined_load_cases=sorted(set(p['clc'] for p in probs)),
+                              degenerate_load_matrix=sum(1 for p in probs if p.get('_degenerate')))
     return False
 
 
@@ -883,6 +1023,13 @@ def replay(ctx, data):
         bad = redefinition_bad(p, r['edit'], r['sparse'], r['num'])
         print('redefinition:', bad)
         return 1 if bad else 0
+    if p.get('kind') == 'cone':
+        outcome, calls, M, A, pos = run_cone(p)
+        bad = cone_predicates(p, outcome, calls, M, A, pos)
+        rep = driver([cone_line(p, M, calls, pos)])[0]
+        d = compare_lb(rep, outcome, calls, M, A, M.shape[0])
+        print('predicates:', bad, '| model-vs-impl:', d)
+        return 1 if (bad or d) else 0
     runs = runs_of(p)
     bad, stats = evaluate(p, runs)
     lines, keep = [], []
